@@ -246,7 +246,7 @@ def run(run):
     run.assumptions = ["reference exponential: scipy.linalg.expm (Pade)",
                        "truncation bound n*sup||T^k||*sup||E^k||*||T-E|| of the order-4 expansion, "
                        "computed per case; factor 2 allowed"]
-    depth = 3 if run.tier == "quick" else 4
+    depth = 4 if run.tier == "quick" else 7
     for init in ("zeros", "data"):
         execute.init = init
         n0 = len(run.viol)
